@@ -44,6 +44,9 @@ type C17Plan struct {
 	Shared   []string                `json:"shared"` // texts of the shared ASTs (built before the tasks start)
 	Tasks    []TaskPlan              `json:"tasks"`
 	Preempts []PreemptFrac           `json:"preempts"`
+	// AtomicPreempts: switch at the Nth scheduling point in front of an atomic operation (drawn only
+	// when the tree under test has such points)
+	AtomicPreempts []verifhook.AtomicPreempt `json:"atomic_preempts,omitempty"`
 	First    int                     `json:"first"`
 	EndPick  []int                   `json:"end_pick"` // successor choice when a task finishes
 	Order    verifhook.OrderPolicy   `json:"order"`
@@ -169,6 +172,16 @@ func (C17) NewPlan(r *core.Rand, tier string, i uint64) interface{} {
 		p.Preempts = append(p.Preempts, PreemptFrac{Step: st + int64(r.Intn(7)), Choice: r.Intn(8)})
 	}
 	sort.Slice(p.Preempts, func(a, b int) bool { return p.Preempts[a].Step < p.Preempts[b].Step })
+	if verifhook.AtomicSiteCount() > 0 && r.Chance(2, 3) {
+		for k := r.Range(1, 3); k > 0; k-- {
+			n := int64(1)
+			for e := r.Float() * 2.5; e > 0; e -= 0.25 {
+				n = n*178/100 + 1
+			}
+			p.AtomicPreempts = append(p.AtomicPreempts, verifhook.AtomicPreempt{N: n + int64(r.Intn(4)), Choice: r.Intn(8)})
+		}
+		sort.Slice(p.AtomicPreempts, func(a, b int) bool { return p.AtomicPreempts[a].N < p.AtomicPreempts[b].N })
+	}
 	p.Order = []verifhook.OrderPolicy{{Kind: verifhook.OrderAsc}, {Kind: verifhook.OrderDesc}, {Kind: verifhook.OrderShuffle, Arg: r.U64()}}[r.Intn(3)]
 	return p
 }
@@ -240,11 +253,15 @@ func runTaskOp(op *TaskOp, ctx *opCtx, shared []*influxql.SelectStatement) strin
 		if !ok {
 			return ""
 		}
+		// a continuous query's life: a window, the same window again (duplicate tick), the next one
 		a, b := windowFor(int(op.N))
 		e1 := sel.SetTimeRange(a, b)
-		a2, b2 := windowFor(int(op.N) + 7)
-		e2 := sel.SetTimeRange(a2, b2)
-		return fmt.Sprint(e1, e2, " ", sel.String())
+		s1 := sel.String()
+		e2 := sel.SetTimeRange(a, b)
+		s2 := sel.String()
+		a3, b3 := windowFor(int(op.N) + 7)
+		e3 := sel.SetTimeRange(a3, b3)
+		return fmt.Sprint(e1, e2, e3, " ", s1, " | ", s2, " | ", sel.String())
 	case "own-rewrite":
 		st, err := influxql.ParseStatement(string(op.Text))
 		if err != nil {
@@ -414,6 +431,7 @@ func (C17) Exec(pi interface{}) *core.RunResult {
 	readNewRaceLog() // drop anything older
 	racesBefore := verifhook.RaceErrors()
 	verifhook.SchedBegin(n, pre)
+	verifhook.SchedAtomicPlan(p.AtomicPreempts)
 	var wg sync.WaitGroup
 	for t := 0; t < n; t++ {
 		wg.Add(1)
@@ -648,6 +666,16 @@ func (C17) Shrink(pi interface{}) []interface{} {
 				q.Tasks[t].Ops = append(q.Tasks[t].Ops[:k:k], q.Tasks[t].Ops[k+1:]...)
 				out = append(out, q)
 			}
+		}
+	}
+	if len(p.AtomicPreempts) > 0 {
+		q := cp()
+		q.AtomicPreempts = nil
+		out = append(out, q)
+		for i := range p.AtomicPreempts {
+			q := cp()
+			q.AtomicPreempts = append(q.AtomicPreempts[:i:i], q.AtomicPreempts[i+1:]...)
+			out = append(out, q)
 		}
 	}
 	// drop preemptions
